@@ -445,19 +445,21 @@ func jpegSeg(marker byte, data []byte) []byte {
 }
 
 type jpegOpt struct {
-	w, h        uint16
-	precision   byte
-	ncomp       int
-	progressive bool
-	nBefore     int // segments between SOI and SOF (besides ICC)
-	nAfter      int // segments between SOF and SOS
-	icc         []byte
-	chunkSize   int   // payload bytes per APP2 chunk
-	order       []int // order in which the chunks are emitted (permutation of 0..n-1); nil = in order
-	iccAfterSOF bool
-	damage      string // "", drop, total, seq0, seqhigh, dup
-	body        int
-	realTables  [][]byte // DQT/DHT segments taken from a real file (decodable filler)
+	w, h         uint16
+	precision    byte
+	ncomp        int
+	progressive  bool
+	nBefore      int // segments between SOI and SOF (besides ICC)
+	nAfter       int // segments between SOF and SOS
+	icc          []byte
+	chunkSize    int   // payload bytes per APP2 chunk
+	order        []int // order in which the chunks are emitted (permutation of 0..n-1); nil = in order
+	iccAfterSOF  bool
+	damage       string // "", drop, total, seq0, seqhigh, dup
+	body         int
+	realTables   [][]byte // DQT/DHT segments taken from a real file (decodable filler)
+	app2AfterICC bool     // a non-ICC APP2 segment (MPF) between the ICC chunks and the frame header
+	bigTail      int      // this many 65533-byte COM segments after everything the loader needs, before SOS
 }
 
 func jpegFiller(rng *rand.Rand, o *jpegOpt) []byte {
@@ -601,6 +603,9 @@ func buildJPEG(rng *rand.Rand, o jpegOpt) *mfile {
 		}
 		emitICC(true)
 		endICC = len(b)
+		if o.app2AfterICC {
+			b = append(b, jpegSeg(0xe2, append([]byte("MPF\x00MM\x00*"), randBytes(rng, 40)...))...)
+		}
 		for i := 0; i < rng.Intn(2); i++ {
 			b = append(b, jpegFiller(rng, &o)...)
 		}
@@ -623,6 +628,9 @@ func buildJPEG(rng *rand.Rand, o jpegOpt) *mfile {
 	}
 	for i := 0; i < o.nAfter-o.nAfter/2; i++ {
 		b = append(b, jpegFiller(rng, &o)...)
+	}
+	for i := 0; i < o.bigTail; i++ {
+		b = append(b, jpegSeg(0xfe, randBytes(rng, 65533))...)
 	}
 	sosHdr := []byte{byte(o.ncomp)}
 	for i := 0; i < o.ncomp; i++ {
@@ -662,13 +670,15 @@ func riffChunk(typ string, data []byte) []byte {
 }
 
 type webpOpt struct {
-	kind    string // vp8 | vp8l | vp8x
-	w, h    uint32
-	icc     []byte
-	flagICC bool
-	damage  string // "", "missing-iccp" (flag set, next chunk is not ICCP), "truncated-iccp"
-	body    int
-	scale   byte
+	kind      string // vp8 | vp8l | vp8x
+	w, h      uint32
+	icc       []byte
+	flagICC   bool
+	damage    string // "", "missing-iccp" (flag set, next chunk is not ICCP), "truncated-iccp"
+	body      int
+	scale     byte
+	extra     string // "", "alph" (alpha plane chunk before the image data), "anmf" (animation frames)
+	extraSize int
 }
 
 func buildWebP(rng *rand.Rand, o webpOpt) *mfile {
@@ -723,6 +733,16 @@ func buildWebP(rng *rand.Rand, o webpOpt) *mfile {
 		} else if o.icc != nil {
 			// an ICCP chunk without the flag: not announced, must be ignored
 			payload = append(payload, riffChunk("ICCP", o.icc)...)
+		}
+		switch o.extra {
+		case "alph":
+			payload = append(payload, riffChunk("ALPH", randBytes(rng, o.extraSize))...)
+			f.Decodable = false
+		case "anmf":
+			for k := 0; k < 3; k++ {
+				payload = append(payload, riffChunk("ANMF", randBytes(rng, o.extraSize/3))...)
+			}
+			f.Decodable = false
 		}
 		// the image data proper: a VP8L chunk with matching canvas when small enough
 		if o.w <= 16384 && o.h <= 16384 {
